@@ -216,4 +216,38 @@ PROPS["C10"] = {
                     "the growth policy of Alloc (max(16, 2*cap)) is a parameter: theorems hold for every capacity above the old one"],
 }
 
+PROPS["C13"] = {
+    "lean_modules": ["AvroModel.Props.C13"],
+    "required_theorems": ["write_valid", "write_valid_built", "write_then_read", "null_second_selector", "general_union_write_panics", "timeLong_units"],
+    "harness": [("WR13", "C13")],
+    "level_text": "Proof: for every codec the model of build.go constructs for a caller-supplied schema, every Go value and every budget, the bytes "
+                  "the model of Codec.Write produces are exactly the specification's encoding (canonical plan) of the datum the value denotes "
+                  "(write_valid: null first or second, every numeric width, logical types, wrappers, nested records/arrays/maps), and reading them "
+                  "back delivers that datum's value with nothing left over (write_then_read = write correctness composed with the read theorem of "
+                  "C03). Tie: generated caller schemas + covering Go types + in-range values through the real Schema.Codec/Write/Read; the written "
+                  "bytes are decoded by the Lean reference decoder under the caller's schema alone and compared with toAvro of the value; the "
+                  "read-back value is compared with ofAvro of the datum; model bytes must equal implementation bytes (map order taken from the output).",
+    "level_note": "Trusted: Lean kernel; Wire.lean spec; differential tie; time formatting/parsing enter through Env (verified in C18); general unions have no writer (proved fact, outside the quantifier).",
+    "rule": "Random caller schemas (nullable unions with null first/second, int/long/float/double vs Go int16/32/64/int/float32/float64, fixed, nested "
+            "records, arrays, maps, date / timestamp-millis / timestamp-micros / plain-long / string time fields, null.* wrappers), covering "
+            "struct types, values within the schema type's range incl. boundaries, NaN payloads, nil/empty collections.",
+    "trusted": CODEC_TRUST,
+}
+PROPS["C02"] = {
+    "lean_modules": ["AvroModel.Props.C02"],
+    "required_theorems": ["record_valid", "null_branch_iff", "omits_cases", "null_clause_full_false", "null_clause_partial", "container_frames"],
+    "harness": [("WR2", "C02")],
+    "level_text": "Proof: every record the encoder buffers is the specification's encoding of the datum its value denotes under the schema "
+                  "(record_valid), the null branch is written exactly when Omit holds and Omit is characterised in value terms (null_branch_iff, "
+                  "omits_cases), the container is header ++ exact frames (C09.refines). The full null clause is false behind a pointer to an invalid "
+                  "wrapper (null_clause_full_false, known finding D27); null_clause_partial covers everything else. Tie: random Go types of the C01 "
+                  "domain with the schema the library itself generates; bytes judged by the Lean reference decoder under that schema alone, datum "
+                  "compared with the specification's reading (specNull) of the value, read-back compared.",
+    "level_note": "Trusted: Lean kernel; Wire.lean spec; differential tie. File-level framing is judged in C09 (spec header reader) and C01 (end to end).",
+    "rule": "Random struct types (bool, ints, floats, string, []byte, time.Time, null.*, slices, string-keyed maps, pointers at any depth, nested "
+            "structs, json name / omitempty tags) with type-directed random values: nil/empty collections, nil pointers at every level, invalid "
+            "wrappers, zero omitempty fields, NaN/Inf/-0, non-UTF-8 strings.",
+    "trusted": CODEC_TRUST,
+}
+
 NOT_APPLICABLE = {}
